@@ -652,3 +652,9 @@ mod tests {
         sender_thread.join().expect("Failed to send!");
     }
 }
+
+// Verification harnesses (Kani); the sources live outside this repository.
+#[cfg(feature = "verif")]
+mod verif {
+    include!(concat!(env!("VHOST_VERIF_DIR"), "/harness/vu_gpu_backend_req.rs"));
+}
